@@ -238,7 +238,15 @@ def job_wiring(family, shape, groups=None, max_paths=6000, timeout_q=10.0, reviv
             res["obligations"].append({"name": tag + "/path-error", "verdict": "inconclusive", "how": repr(out)[:300]})
             continue
         pre, exp, inplace = out
-        res["obligations"].append({"name": tag + "/optimiser called once before the prox, weights updated in place", "verdict": "unsat" if (box["opt"].calls == ["update"] and inplace) else "sat", "how": "syntactic"})
+        ok_ip = box["opt"].calls == ["update"] and inplace
+        res["obligations"].append({"name": tag + "/optimiser called once before the prox, weights updated in place", "verdict": "unsat" if ok_ip else "sat", "how": "syntactic"})
+        if not ok_ip and f"{PROP}:{family}:not-in-place" not in seen:
+            rep_ = {"kind": "wiring", "family": family, "shape": list(shape), "groups": groups, "inplace": True, "revive": revive, "dynamic": dynamic, "model": {}}
+            if replay(rep_):
+                seen.add(f"{PROP}:{family}:not-in-place")
+                res["violations"].append({"signature": f"{PROP}:{family}:not-in-place", "what": f"{family}._update_weights rebinds a weight array instead of updating it in place (the optimiser and the path keep the old one)", "replay": rep_})
+            else:
+                res["obligations"][-1]["verdict"] = "inconclusive"
         bad = False
         for nm, e in exp.items():
             got = getattr(mdl, nm)
@@ -411,6 +419,8 @@ def replay(rep, verbose=False):
                 else:
                     e = pg.linear_prox_grad(pre["W_"], thr) if rep.get("groups") is None else pg.group_linear_prox_grad(rep["groups"], pre["W_"], thr)
                     bad = not np.allclose(mdl.W_, e, rtol=1e-9, atol=1e-12)
+                if rep.get("inplace"):
+                    bad = [id(w) for w in mdl._get_weights()] != [id(w) for w in ws]
                 if rep.get("hier") and cm.BASE[family] == "smlp":
                     bad = bad or any((not np.any(mdl.W_skip_[j] != 0)) and np.any(mdl.W1_[j] != 0) for j in range(mdl.W_skip_.shape[0]))
                 if rep.get("whole") is not None:
